@@ -1288,3 +1288,377 @@ def analyse_finalized_guard(cls):
         label = f"{cls.__name__}.{fn.name}" + (".setter" if role == "setter" else "")
         results.append((label, not bad, "; ".join(f"line {ln}: {what}" for ln, what in bad) if bad else "every write is behind the finalized guard"))
     return results, []
+
+
+# ================================================================================================= shared shard lists
+# C06 (d): `CompositeCanvas(canv)` SHARES `canv.shards` (the list object, and the per-shard cview lists inside it) with
+# the canvas it wraps — that wrapper is the sanctioned way to change a finalized (cached) canvas. So a CompositeCanvas
+# method (or a shards_* helper) that mutates a possibly shared list IN PLACE changes the finalized canvas behind the
+# finalized guard's back: "canvases handed out by the cache are never modified afterwards" is broken without any
+# CanvasError. Obligation, per function: every in-place mutation (append / extend / insert / pop / remove / clear / sort /
+# reverse, `+=` / `*=`, item or slice assignment and deletion) of a list that MAY BE SHARED is absent on every path.
+#   provenance of a list value:  fresh  = created in this activation (list display / comprehension, `+`, slicing,
+#                                          .copy(), list(...), a module function all of whose returns are fresh);
+#                                shared = `x.shards` of any object (for `self.shards`: unless fresh on this path), a
+#                                          parameter of a module-level helper, an element / loop variable / unpacking of a
+#                                          shared OR fresh shard list (copies are shallow: the inner cview lists stay shared);
+#   `self.shards` becomes fresh by `self.shards = <fresh>`; stays what it is through `self.m()` whose own assignments are all
+#   fresh-or-unchanged (summary, flow-insensitive); and is known fresh on the `else` side of `<a> is self.shards` when <a>
+#   was bound to `self.shards` before any rebinding and every rebinding since was fresh (pad_trim_top_bottom's idiom).
+# Paths: both arms of every `if`, loop bodies to a fixpoint of the (finite) abstract state, `try` with and without handlers.
+_LIST_INPLACE = ("append", "extend", "insert", "pop", "remove", "clear", "sort", "reverse", "__setitem__", "__delitem__", "__iadd__", "__imul__")
+SHARED_ATTR = "shards"
+
+
+def _flow_insensitive_fresh_locals(fn, fresh_funcs, me=None):
+    """names all of whose assignments in `fn` are fresh expressions, `= self.shards` excluded unless allow_same"""
+    assigns: dict = {}
+    for n in ast.walk(fn):
+        if isinstance(n, ast.Assign):
+            for t in n.targets:
+                if isinstance(t, ast.Name):
+                    assigns.setdefault(t.id, []).append(n.value)
+                elif isinstance(t, (ast.Tuple, ast.List)):
+                    for e in ast.walk(t):
+                        if isinstance(e, ast.Name):
+                            assigns.setdefault(e.id, []).append(None)
+        elif isinstance(n, (ast.AugAssign, ast.AnnAssign)) and isinstance(n.target, ast.Name):
+            assigns.setdefault(n.target.id, []).append(getattr(n, "value", None) if isinstance(n, ast.AnnAssign) else None)
+        elif isinstance(n, (ast.For, ast.comprehension)):
+            for e in ast.walk(n.target):
+                if isinstance(e, ast.Name):
+                    assigns.setdefault(e.id, []).append(None)
+    params = {a.arg for a in fn.args.posonlyargs + fn.args.args + fn.args.kwonlyargs}
+    fresh: set = set()
+    same: set = set()  # fresh-or-(the current self.shards)
+    changed = True
+    while changed:
+        changed = False
+        for name, vals in assigns.items():
+            if name in params:
+                continue
+            if name not in fresh and all(v is not None and _fresh_expr(v, fresh, fresh_funcs) for v in vals):
+                fresh.add(name)
+                changed = True
+            if me is not None and name not in same and all(v is not None and (_fresh_expr(v, fresh | same, fresh_funcs) or _is_self_attr(v, me)) for v in vals):
+                same.add(name)
+                changed = True
+    return fresh, same
+
+
+def _is_self_attr(e, me, attr=SHARED_ATTR):
+    return isinstance(e, ast.Attribute) and e.attr == attr and isinstance(e.value, ast.Name) and e.value.id == me
+
+
+def _fresh_expr(e, fresh_names, fresh_funcs):
+    """the expression certainly evaluates to a list object created by this evaluation"""
+    if isinstance(e, (ast.List, ast.ListComp)):
+        return True
+    if isinstance(e, ast.BinOp) and isinstance(e.op, (ast.Add, ast.Mult)):
+        return True  # list + list / list * n build a new list
+    if isinstance(e, ast.Subscript) and isinstance(e.slice, ast.Slice):
+        return True
+    if isinstance(e, ast.Call):
+        f = e.func
+        if isinstance(f, ast.Name) and (f.id in ("list", "sorted") or f.id in fresh_funcs):
+            return True
+        if isinstance(f, ast.Attribute) and f.attr == "copy" and not e.args and not e.keywords:
+            return True
+    return isinstance(e, ast.Name) and e.id in fresh_names
+
+
+def fresh_returning_functions(mod):
+    """module-level functions every `return` of which gives a list created in the call (fixpoint over mutual use)"""
+    fns = {n.name: n for n in mod.tree.body if isinstance(n, ast.FunctionDef)}
+    fresh: set = set()
+    changed = True
+    while changed:
+        changed = False
+        for name, fn in fns.items():
+            if name in fresh:
+                continue
+            rets = [n for n in ast.walk(fn) if isinstance(n, ast.Return)]
+            if not rets or any(isinstance(n, (ast.Yield, ast.YieldFrom)) for n in ast.walk(fn)):
+                continue
+            loc, _same = _flow_insensitive_fresh_locals(fn, fresh)
+            if all(r.value is not None and _fresh_expr(r.value, loc, fresh) for r in rets):
+                fresh.add(name)
+                changed = True
+    return fresh
+
+
+class _ShState:
+    """abstract state of one path: provenance of local names + the status of self.shards"""
+
+    __slots__ = ("env", "fresh", "tainted", "rebound", "entry_alias", "cur_alias")
+
+    def __init__(self):
+        self.env = {}  # name -> "fresh" | "shared" | "elem" (element tuple of a fresh shard list)
+        self.fresh = False  # self.shards is a list created in this activation
+        self.tainted = False  # self.shards was rebound to a possibly shared list on this path
+        self.rebound = False  # self.shards may have been rebound since entry
+        self.entry_alias = frozenset()  # names bound to the entry-time self.shards object
+        self.cur_alias = frozenset()  # names bound to the current self.shards object
+
+    def copy(self):
+        o = _ShState()
+        o.env = dict(self.env)
+        o.fresh, o.tainted, o.rebound, o.entry_alias, o.cur_alias = self.fresh, self.tainted, self.rebound, self.entry_alias, self.cur_alias
+        return o
+
+    def key(self):
+        return (tuple(sorted(self.env.items())), self.fresh, self.tainted, self.rebound, self.entry_alias, self.cur_alias)
+
+    @staticmethod
+    def join(a, b):
+        if a is None:
+            return b
+        if b is None:
+            return a
+        o = _ShState()
+        for k in set(a.env) | set(b.env):
+            x, y = a.env.get(k), b.env.get(k)
+            if x == y:
+                if x is not None:
+                    o.env[k] = x
+            elif "shared" in (x, y):
+                o.env[k] = "shared"
+            elif "elem" in (x, y) and None not in (x, y):
+                o.env[k] = "shared"
+            elif x is not None and y is not None:
+                o.env[k] = "shared"
+        o.fresh = a.fresh and b.fresh
+        o.tainted = a.tainted or b.tainted
+        o.rebound = a.rebound or b.rebound
+        o.entry_alias = a.entry_alias & b.entry_alias
+        o.cur_alias = a.cur_alias & b.cur_alias
+        return o
+
+
+def analyse_shared_shards(cls):
+    """-> ([(label, ok, detail)], []) one obligation per method of `cls` and per module-level function of its module that
+    handles shard lists: no in-place mutation of a possibly shared list (see the comment block above)."""
+    info = ClassInfo(cls)
+    m = SRC.module_of_real(cls.__module__)
+    cnode = SRC.find_class(m, cls.__qualname__)
+    fresh_funcs = fresh_returning_functions(m)
+    summaries: dict = {}
+
+    def summary(name, depth=0):
+        """'none' | 'fresh' | 'taint': what self.<name>() may do to self.shards"""
+        if name in summaries:
+            return summaries[name]
+        summaries[name] = "none"  # recursion guard
+        ref = info.method(name)
+        if ref is None or depth > 6:
+            return "none"
+        fn = ref.node
+        me = _self_name(fn)
+        _fl, same = _flow_insensitive_fresh_locals(fn, fresh_funcs, me)
+        res = "none"
+        for n in ast.walk(fn):
+            if isinstance(n, (ast.Assign, ast.AnnAssign, ast.AugAssign)):
+                tgts = n.targets if isinstance(n, ast.Assign) else [n.target]
+                for t in tgts:
+                    if _is_self_attr(t, me):
+                        v = getattr(n, "value", None)
+                        ok = not isinstance(n, ast.AugAssign) and v is not None and (_fresh_expr(v, same, fresh_funcs) or _is_self_attr(v, me))
+                        res = "taint" if (not ok or res == "taint") else "fresh"
+            if isinstance(n, ast.Call) and isinstance(n.func, ast.Attribute) and isinstance(n.func.value, ast.Name) and n.func.value.id == me:
+                sub = summary(n.func.attr, depth + 1)
+                if sub == "taint" or (sub == "fresh" and res == "none"):
+                    res = sub
+        summaries[name] = res
+        return res
+
+    def analyse(fn, is_method):
+        me = _self_name(fn) if is_method else None
+        found = []
+
+        def prov(e, st):
+            """provenance of the list (or tuple) value of expression e"""
+            if isinstance(e, ast.Name):
+                return st.env.get(e.id)
+            if isinstance(e, ast.Attribute) and e.attr == SHARED_ATTR:
+                if me is not None and _is_self_attr(e, me):
+                    return "fresh" if st.fresh else "shared"
+                return "shared"
+            if isinstance(e, ast.Subscript) and not isinstance(e.slice, ast.Slice):
+                p = prov(e.value, st)
+                return {"shared": "shared", "fresh": "elem", "elem": "shared"}.get(p)
+            if isinstance(e, ast.Call) and isinstance(e.func, ast.Name) and e.func.id in ("iter", "reversed", "enumerate", "next") and e.args:
+                p = prov(e.args[0], st)
+                return "shared" if p in ("shared", "elem") else ("elem" if p == "fresh" and e.func.id == "next" else p)
+            if isinstance(e, ast.Starred):
+                return prov(e.value, st)
+            if _fresh_expr(e, {k for k, v in st.env.items() if v == "fresh"}, fresh_funcs):
+                return "fresh"
+            return None
+
+        def flag(node, what, st):
+            found.append((node.lineno, what))
+
+        def scan_expr(e, st):
+            """in-place method calls and self-method calls inside an expression (evaluation order is ignored)"""
+            for n in ast.walk(e):
+                if isinstance(n, ast.Call) and isinstance(n.func, ast.Attribute):
+                    f = n.func
+                    if f.attr in _LIST_INPLACE and prov(f.value, st) == "shared":
+                        flag(n, f"in-place {ast.unparse(f)[:50]}() on a possibly shared list", st)
+                    elif me is not None and isinstance(f.value, ast.Name) and f.value.id == me:
+                        s = summary(f.attr)
+                        if s != "none":
+                            st.rebound = True
+                            st.cur_alias = frozenset()
+                        if s == "taint":
+                            st.fresh, st.tainted = False, True
+
+        def bind(t, p, st, value=None):
+            if isinstance(t, ast.Name):
+                if p is None:
+                    st.env.pop(t.id, None)
+                else:
+                    st.env[t.id] = p
+                st.entry_alias -= {t.id}
+                st.cur_alias -= {t.id}
+                if me is not None and value is not None and _is_self_attr(value, me):
+                    st.cur_alias |= {t.id}
+                    if not st.rebound:
+                        st.entry_alias |= {t.id}
+            elif isinstance(t, (ast.Tuple, ast.List)):
+                for e in t.elts:
+                    bind(e.value if isinstance(e, ast.Starred) else e, "shared" if p in ("shared", "elem", "fresh") else None, st)
+            elif isinstance(t, ast.Subscript):
+                if prov(t.value, st) == "shared":
+                    flag(t, f"item assignment {ast.unparse(t)[:50]} on a possibly shared list", st)
+            elif me is not None and _is_self_attr(t, me):
+                if isinstance(value, ast.Name) and value.id in st.cur_alias:
+                    return  # self.shards = <the same object>
+                st.fresh = p == "fresh"
+                st.tainted = st.tainted or not st.fresh
+                st.rebound = True
+                st.cur_alias = frozenset({value.id}) if isinstance(value, ast.Name) else frozenset()
+
+        def is_test(test, st):
+            """(alias `is` self.shards) -> +1, (`is not`) -> -1, else 0"""
+            if me is None or not isinstance(test, ast.Compare) or len(test.ops) != 1:
+                return 0
+            a, b = test.left, test.comparators[0]
+            if _is_self_attr(a, me):
+                a, b = b, a
+            if not (_is_self_attr(b, me) and isinstance(a, ast.Name) and a.id in st.entry_alias):
+                return 0
+            return 1 if isinstance(test.ops[0], ast.Is) else (-1 if isinstance(test.ops[0], ast.IsNot) else 0)
+
+        def run(stmts, st):
+            for s in stmts:
+                if st is None:
+                    return None
+                if isinstance(s, ast.Assign):
+                    scan_expr(s.value, st)
+                    p = prov(s.value, st)
+                    for t in s.targets:
+                        bind(t, p, st, s.value)
+                elif isinstance(s, ast.AnnAssign):
+                    if s.value is not None:
+                        scan_expr(s.value, st)
+                        bind(s.target, prov(s.value, st), st, s.value)
+                elif isinstance(s, ast.AugAssign):
+                    scan_expr(s.value, st)
+                    t = s.target
+                    if isinstance(t, ast.Subscript):
+                        if prov(t.value, st) == "shared":
+                            flag(s, f"item update {ast.unparse(t)[:50]} on a possibly shared list", st)
+                    elif isinstance(s.op, (ast.Add, ast.Mult)) and prov(t, st) == "shared" and (isinstance(t, ast.Attribute) or isinstance(s.op, ast.Mult) or prov(s.value, st) == "fresh"):
+                        # (a NAME unpacked from a shard tuple may be the row count: `done_rows += num_rows` is integer arithmetic;
+                        # it is a list operation when the right-hand side is a list created here)
+                        flag(s, f"augmented assignment {ast.unparse(t)[:50]} {'+=' if isinstance(s.op, ast.Add) else '*='} extends a possibly shared list in place", st)
+                elif isinstance(s, ast.Delete):
+                    for t in s.targets:
+                        if isinstance(t, ast.Subscript) and prov(t.value, st) == "shared":
+                            flag(s, f"del {ast.unparse(t)[:50]} on a possibly shared list", st)
+                elif isinstance(s, (ast.Expr, ast.Return)):
+                    if s.value is not None:
+                        scan_expr(s.value, st)
+                    if isinstance(s, ast.Return):
+                        return None
+                elif isinstance(s, ast.Raise):
+                    return None
+                elif isinstance(s, ast.If):
+                    scan_expr(s.test, st)
+                    a, b = st.copy(), st.copy()
+                    k = is_test(s.test, st)
+                    if k:
+                        other = b if k == 1 else a  # the side on which self.shards is NOT the entry-time object
+                        other.fresh = other.fresh or not other.tainted
+                    st = _ShState.join(run(s.body, a), run(s.orelse, b))
+                elif isinstance(s, (ast.For, ast.While)):
+                    scan_expr(s.iter if isinstance(s, ast.For) else s.test, st)
+                    seen = set()
+                    out = st.copy()
+                    cur = st
+                    for _ in range(8):
+                        if cur is None or cur.key() in seen:
+                            break
+                        seen.add(cur.key())
+                        body_in = cur.copy()
+                        if isinstance(s, ast.For):
+                            p = prov(s.iter, body_in)
+                            bind(s.target, "shared" if p in ("shared", "elem", "fresh") else None, body_in)
+                            if isinstance(s.target, ast.Name) and p in ("shared", "elem", "fresh"):
+                                body_in.env[s.target.id] = "shared" if p != "fresh" else "elem"
+                        after = run(s.body, body_in)
+                        out = _ShState.join(out, after)
+                        cur = _ShState.join(cur, after)
+                    st = _ShState.join(out, run(s.orelse, out.copy()) if s.orelse else out)
+                elif isinstance(s, ast.With):
+                    for it in s.items:
+                        scan_expr(it.context_expr, st)
+                    inner = run(s.body, st.copy())
+                    # a suppressing context manager may leave the block from anywhere: join with the entry state
+                    st = _ShState.join(st, inner) if any("suppress" in ast.unparse(it.context_expr) for it in s.items) else inner
+                elif isinstance(s, ast.Try):
+                    a = run(s.body, st.copy())
+                    out = run(s.orelse, a.copy()) if (s.orelse and a is not None) else a
+                    for h in s.handlers:
+                        out = _ShState.join(out, run(h.body, _ShState.join(st.copy(), a)))
+                    st = run(s.finalbody, out) if (s.finalbody and out is not None) else out
+                elif isinstance(s, (ast.Break, ast.Continue)):
+                    return st  # approximated: the loop join above covers leaving the body early
+                else:
+                    for n in ast.iter_child_nodes(s):
+                        if isinstance(n, ast.expr):
+                            scan_expr(n, st)
+            return st
+
+        st0 = _ShState()
+        if not is_method:
+            for a in fn.args.posonlyargs + fn.args.args + fn.args.kwonlyargs:
+                st0.env[a.arg] = "shared"
+        run(fn.body, st0)
+        return sorted(set(found))
+
+    results = []
+    for fn in SRC._class_body_defs(cnode.body):
+        if SRC._is_overload(fn) or not fn.args.args or any(ast.unparse(d) in ("staticmethod", "classmethod") for d in fn.decorator_list):
+            continue
+        if not any(isinstance(n, ast.Attribute) and n.attr == SHARED_ATTR for n in ast.walk(fn)):
+            continue
+        bad = analyse(fn, True)
+        results.append((f"{cls.__name__}.{fn.name}", not bad, "; ".join(f"line {ln}: {what}" for ln, what in bad) if bad else "no in-place mutation of a possibly shared shard list"))
+    for fn in m.tree.body:
+        if isinstance(fn, ast.FunctionDef) and (fn.name.startswith(("shards_", "shard_")) or any(isinstance(n, ast.Attribute) and n.attr == SHARED_ATTR for n in ast.walk(fn))):
+            is_helper = fn.name.startswith(("shards_", "shard_"))
+            bad = analyse(fn, False) if is_helper else _analyse_plain(fn, analyse)
+            results.append((f"{m.rel if hasattr(m, 'rel') else 'canvas'}:{fn.name}", not bad, "; ".join(f"line {ln}: {what}" for ln, what in bad) if bad else "no in-place mutation of a possibly shared shard list"))
+    return results, []
+
+
+def _analyse_plain(fn, analyse):
+    """a module-level function that is not a shard-list helper (CanvasCombine, CanvasJoin, ...): its parameters are not
+    shard lists; only `x.shards` values are shared"""
+    import copy
+
+    fn2 = copy.copy(fn)
+    fn2.args = ast.arguments(posonlyargs=[], args=[], kwonlyargs=[], kw_defaults=[], defaults=[])
+    return analyse(fn2, False)
